@@ -249,7 +249,11 @@ end
 
 `for listener in self.listeners.copy(): listener.async_update_records(...)`: the set is copied before the
 iteration, so whatever the callbacks do to `self.listeners` (add or remove listeners, themselves included)
-changes who is called *next time*, never who is called now. -/
+changes who is called *next time*, never who is called now.
+
+`async_remove_listener` does `self.listeners.remove(listener)` on a **set** and catches `ValueError`: removing a
+listener that is not registered raises `KeyError`, which is not caught (D18).  Raised from inside a callback it
+propagates out of `async_updates` / `async_updates_complete` and aborts the datagram. -/
 
 /-- something a callback does to the listener set -/
 inductive ListenerAct where
@@ -257,20 +261,69 @@ inductive ListenerAct where
   | remove (l : Nat)
   deriving Repr, DecidableEq
 
-/-- `self.listeners.add` / `self.listeners.remove` (a set) -/
-def applyAct (ls : List Nat) : ListenerAct → List Nat
-  | .add l => if ls.contains l then ls else ls ++ [l]
-  | .remove l => ls.filter (fun x => x != l)
+/-- `async_add_listener(l, None)` (`set.add`) / `async_remove_listener(l)` (`set.remove`; `KeyError` when absent) -/
+def applyAct (ls : List Nat) : ListenerAct → Except PyExc (List Nat)
+  | .add l => .ok (if ls.contains l then ls else ls ++ [l])
+  | .remove l => if ls.contains l then .ok (ls.filter (fun x => x != l)) else .error .keyError
 
-/-- one notification round: every listener of the copy is called once, in the copy's order; `react l` is what
-listener `l`'s callback does to the live set.  Returns (listeners called, live set afterwards). -/
-def notifyRound (ls : List Nat) (react : Nat → List ListenerAct) : List Nat × List Nat :=
-  (ls, ls.foldl (fun live l => (react l).foldl applyAct live) ls)
+/-- the body of one callback: its actions in order, up to the first one that raises -/
+def runActs (live : List Nat) (acts : List ListenerAct) : List Nat × Option PyExc :=
+  acts.foldl (fun st a =>
+    match st.2 with
+    | some _ => st
+    | none => match applyAct st.1 a with
+      | .ok l => (l, none)
+      | .error e => (st.1, some e)) (live, none)
 
-/-- a datagram with updates: round 1 = `async_update_records`, round 2 = `async_update_records_complete` -/
-def notifyDatagram (ls : List Nat) (react1 react2 : Nat → List ListenerAct) : List Nat × List Nat × List Nat :=
-  let r1 := notifyRound ls react1
-  let r2 := notifyRound r1.2 react2
-  (r1.1, r2.1, r2.2)
+/-- one notification round -/
+structure Round where
+  /-- the listeners whose callback was entered, in order -/
+  called : List Nat
+  /-- `self.listeners` afterwards -/
+  live : List Nat
+  /-- the exception that ended the round early, if any -/
+  err : Option PyExc
+  deriving Repr
+
+/-- one notification round over the snapshot `ls` (`self.listeners.copy()`), in the snapshot's order; `react l` is
+what listener `l`'s callback does to the live set.  An exception out of a callback ends the round. -/
+def notifyRound (ls : List Nat) (react : Nat → List ListenerAct) : Round :=
+  ls.foldl (fun st l =>
+    match st.err with
+    | some _ => st
+    | none =>
+      let r := runActs st.live (react l)
+      { called := st.called ++ [l], live := r.1, err := r.2 }) { called := [], live := ls, err := none }
+
+/-- what one datagram does when listeners are registered -/
+structure Delivery where
+  /-- the cache when `async_updates_from_response` returns or raises -/
+  cache : Cache
+  listeners : List Nat
+  /-- listeners whose `async_update_records` was entered -/
+  round1 : List Nat
+  /-- listeners whose `async_update_records_complete` was entered -/
+  round2 : List Nat
+  /-- the exception that propagated out of `async_updates_from_response`, if any -/
+  err : Option PyExc
+  /-- what the listeners were shown (`Zc.ingest`) -/
+  out : IngestOut Cache
+
+/-- `async_updates_from_response` with the listener set `ls`: round 1 (`async_update_records`) before the cache adds and
+removes, round 2 (`async_update_records_complete`) after them.  An exception out of round 1 propagates before the adds
+and removes: the cache stays as the listeners of round 1 saw it.  `order` is the order in which a set is iterated
+(unspecified in Python: any function; the driver sorts, because the harness's listeners hash to their ids). -/
+def deliver (lower : String → String) (order : List Nat → List Nat) (c : Cache) (ls : List Nat) (now : Ms) (recs : List Rec)
+    (react1 react2 : Nat → List ListenerAct) : Except PyExc Delivery := do
+  let out ← ingest lower (Cache.ops lower) c now recs
+  match out.call1 with
+  | none => pure { cache := out.cache, listeners := ls, round1 := [], round2 := [], err := none, out := out }
+  | some call =>
+    let r1 := notifyRound (order ls) react1
+    match r1.err with
+    | some e => pure { cache := call.2, listeners := r1.live, round1 := r1.called, round2 := [], err := some e, out := out }
+    | none =>
+      let r2 := notifyRound (order r1.live) react2
+      pure { cache := out.cache, listeners := r2.live, round1 := r1.called, round2 := r2.called, err := r2.err, out := out }
 
 end Zc
